@@ -14,7 +14,7 @@ BUDGET = {'quick': 500, 'thorough': 40000}
 TIME = {'quick': 100, 'thorough': 800}
 RULE = ('histories: action kind (snapshot/log/metric/span) x fire_count text x fire_period text x window x up to 40 '
         'hits with scripted clock (boundary spacings: exactly period, +-1 ns, backwards steps) and per-hit condition '
-        '(true/false/raising) and, in 30% of the histories, unrelated configuration changes (register/unregister of another tracepoint through the real TracepointConfigService) between hits, driven through the real TriggerHandler.trace_call; schedules: all 20 interleavings of '
+        '(true/false/raising) and, in 30% of the histories, unrelated configuration changes (register/unregister of another tracepoint through the real TracepointConfigService) between hits, driven through the real TriggerHandler.trace_call; several tracepoints with different limits on one line (merged into one trigger or separate triggers) judged per tracepoint; schedules: all 20 interleavings of '
         '2 threads x (check, process, record) forced with gates inside the condition and a watch. A case is '
         'non-trivial when at least one hit is rejected by a limit and at least one collects (or, for schedules, when '
         'the threads overlap). Distinct = distinct canonical JSON of the case.')
@@ -123,6 +123,14 @@ def gen(rng, tier):
             yield {'kind': 'schedule', 'cfg': {'fire_count': rng.choice(['1', '2', '-1']),
                                                'fire_period': rng.choice(['0', '1000'])},
                    'tss': [10 ** 9, 10 ** 9 + rng.choice([1, 2 * 10 ** 9])], 'sched': list(s)}
+        elif k % 12 == 3:
+            # several tracepoints on one line, each with its own limits (merged into one trigger, or separate triggers)
+            a, b = gen_history(rng, 'snapshot'), gen_history(rng, 'snapshot')
+            cfgs = [{kk: v for kk, v in c['cfg'].items() if kk in ('fire_count', 'fire_period')} for c in (a, b)]
+            if rng.random() < 0.3:
+                cfgs.append({'fire_count': rng.choice(['-1', '1', '2']), 'fire_period': rng.choice(['0', '100', '1000'])})
+            yield {'kind': 'multi', 'cfgs': cfgs, 'hits': [h for h in a['hits'] if 'op' not in h],
+                   'merged': rng.random() < 0.5}
         elif tier == 'thorough' and k % 12 == 6:
             n = rng.choice([3, 4])
             if rng.random() < 0.4:          # serial blocks in a random thread order
@@ -315,9 +323,47 @@ def run_schedule(case):
         rig.close()
 
 
+def run_multi(case):
+    from deep.api.tracepoint.trigger import build_trigger
+    rig = Rig()
+    try:
+        trigs = []
+        for i, cfg in enumerate(case['cfgs']):
+            args = {'condition': 'cond()', 'frame_type': 'no_frame'}
+            args.update(cfg)
+            trigs.append(build_trigger('tp%d' % i, 'host.py', 7, args, [], []))
+        if case.get('merged'):
+            for t in trigs[1:]:
+                trigs[0].merge_actions(t.actions)
+            trigs = trigs[:1]
+        rig.install_via_service(trigs)
+        state = {'cond': 'true'}
+
+        def cond():
+            if state['cond'] == 'raise':
+                raise ValueError('condition fails')
+            return state['cond'] == 'true'
+        collected = [[] for _ in case['cfgs']]
+        for h in case['hits']:
+            state['cond'] = h['cond']
+            rig.clock = h['ts']
+            n0 = len(rig.push.pushed)
+            try:
+                rig.handler.trace_call(MockFrame('/app/host.py', 'fn', 7, {'cond': cond}), 'line', None)
+            except BaseException as e:  # noqa: B902
+                return {'raised': f'{type(e).__name__}: {e}', 'collected': collected}
+            for s in rig.push.pushed[n0:]:
+                collected[int(s.tracepoint.id[2:])].append(h['ts'])
+        return {'collected': collected}
+    finally:
+        rig.close()
+
+
 def run_impl(case):
     if case['kind'] == 'schedule':
         return run_schedule(case)
+    if case['kind'] == 'multi':
+        return run_multi(case)
     return run_history(case)
 
 
@@ -337,6 +383,15 @@ def oracle(case, obs):
     if case.get('no_oracle'):
         return []
     v = []
+    if case['kind'] == 'multi':
+        if 'raised' in obs:
+            return ['trace_call raised into the host: ' + obs['raised']]
+        for i, cfg in enumerate(case['cfgs']):
+            exp = reference({'cfg': cfg, 'hits': case['hits']})
+            if obs['collected'][i] != exp:
+                v.append(f'tracepoint {i} of {len(case["cfgs"])} on the line ({cfg}): collected {obs["collected"][i][:8]}.., '
+                         f'its own limits and the conditions permit exactly {exp[:8]}..')
+        return v
     if case['kind'] == 'schedule':
         if obs.get('errors'):
             v.append('agent raised: %s' % obs['errors'])
@@ -383,6 +438,8 @@ def oracle(case, obs):
 
 
 def known_finding(case, obs):
+    if case['kind'] == 'multi':
+        return None
     if case['kind'] == 'schedule' and overlapping(case):
         return 'C04/2-threads-check-check-record-record'
     if case['kind'] == 'history' and case['cfg'].get('window_in_args'):
@@ -391,6 +448,9 @@ def known_finding(case, obs):
 
 
 def model_request(case, obs):
+    if case['kind'] == 'multi':
+        return {'op': 'runN', 'cfgs': case['cfgs'],
+                'hits': [{'ts': h['ts'], 'cond': h['cond'] == 'true'} for h in case['hits']]}
     cfg = {k: v for k, v in case['cfg'].items() if k in ('fire_count', 'fire_period')}
     if case['kind'] == 'schedule':
         return {'op': 'conc', 'cfg': cfg, 'tss': case['tss'], 'sched': case['sched']}
@@ -413,6 +473,8 @@ def compare(case, obs, resp):
 
 
 def label(case, obs):
+    if case['kind'] == 'multi':
+        return 'multi/%d/%s' % (len(case['cfgs']), 'merged' if case.get('merged') else 'separate')
     if case['kind'] == 'schedule':
         return 'schedule/' + ('overlap' if overlapping(case) else 'serial')
     n = len(obs.get('collected', []))
@@ -422,6 +484,9 @@ def label(case, obs):
 
 
 def nontrivial(case, obs):
+    if case['kind'] == 'multi':
+        c = obs.get('collected', [])
+        return len(c) > 1 and any(x != c[0] for x in c[1:])
     if case['kind'] == 'schedule':
         return overlapping(case)
     n = len(obs.get('collected', []))
@@ -429,6 +494,14 @@ def nontrivial(case, obs):
 
 
 def shrink(case):
+    if case['kind'] == 'multi':
+        hs = case['hits']
+        for i in range(len(hs)):
+            c = dict(case)
+            c['hits'] = hs[:i] + hs[i + 1:]
+            if c['hits']:
+                yield c
+        return
     if case['kind'] != 'history':
         return
     hs = case['hits']
